@@ -129,3 +129,60 @@ func TestXmpNegativeRating(t *testing.T) {
 		}
 	}
 }
+
+// C13 GUIDCUT: identifiers whose scheme part contains a colon ("adobe:docid:photoshop:…", "urn:uuid:…") were cut at
+// the first colon and came back as the nil UUID.
+func TestXmpDocumentIDForms(t *testing.T) {
+	const guid = "6ba7b810-9dad-11d1-80b4-00c04fd430c8"
+	for _, pre := range []string{"", "xmp.did:", "uuid:", "urn:uuid:", "adobe:docid:photoshop:"} {
+		p := xmpPacket(`<rdf:Description rdf:about="" xmlns:xmpMM="http://ns.adobe.com/xap/1.0/mm/" xmpMM:DocumentID="` + pre + guid + `"></rdf:Description>`)
+		x, err := xmp.ParseXmp(strings.NewReader(p))
+		if err != nil || x.MM.DocumentID.String() != guid {
+			t.Errorf("DocumentID %q: %s, err=%v", pre+guid, x.MM.DocumentID.String(), err)
+		}
+	}
+}
+
+// C13 GPSFORM: exif:GPSLatitude / GPSLongitude in the XMP GPSCoordinate form were read by the decimal-number parser
+// and came back as 0.
+func TestXmpGPSCoordinateForms(t *testing.T) {
+	p := xmpPacket(`<rdf:Description rdf:about="" xmlns:exif="http://ns.adobe.com/exif/1.0/" exif:GPSLatitude="33,51.357S" exif:GPSLongitude="151,12,30E"></rdf:Description>`)
+	x, err := xmp.ParseXmp(strings.NewReader(p))
+	if err != nil {
+		t.Fatal(err)
+	}
+	lat, lon := -(33 + 51.357/60), 151+12.0/60+30.0/3600
+	if d := x.Exif.GPSLatitude - lat; d > 1e-9 || d < -1e-9 {
+		t.Errorf("GPSLatitude = %v, want %v", x.Exif.GPSLatitude, lat)
+	}
+	if d := x.Exif.GPSLongitude - lon; d > 1e-9 || d < -1e-9 {
+		t.Errorf("GPSLongitude = %v, want %v", x.Exif.GPSLongitude, lon)
+	}
+}
+
+// C13 RATFORM: exif:GPSAltitude, a Rational ("1234/10"), was read by the decimal-number parser and came back as 0.
+func TestXmpGPSAltitudeRational(t *testing.T) {
+	p := xmpPacket(`<rdf:Description rdf:about="" xmlns:exif="http://ns.adobe.com/exif/1.0/" exif:GPSAltitude="1234/10"></rdf:Description>`)
+	x, err := xmp.ParseXmp(strings.NewReader(p))
+	if err != nil || x.Exif.GPSAltitude < 123.39 || x.Exif.GPSAltitude > 123.41 {
+		t.Errorf("GPSAltitude = %v, err=%v, want 123.4", x.Exif.GPSAltitude, err)
+	}
+}
+
+// C13 DATEFORMS: the reduced-precision forms of the XMP Date type were refused and reported as the zero time.
+func TestXmpReducedDates(t *testing.T) {
+	for _, c := range []struct{ txt, want string }{
+		{"2021-03-04", "2021-03-04T00:00:00Z"},
+		{"2021-03", "2021-03-01T00:00:00Z"},
+		{"2021", "2021-01-01T00:00:00Z"},
+		{"2021-03-04T05:06", "2021-03-04T05:06:00Z"},
+		{"2021-03-04T05:06+05:30", "2021-03-04T05:06:00+05:30"},
+		{"2021-03-04T05:06:07", "2021-03-04T05:06:07Z"},
+	} {
+		p := xmpPacket(`<rdf:Description rdf:about="" xmlns:xmp="http://ns.adobe.com/xap/1.0/" xmp:CreateDate="` + c.txt + `"></rdf:Description>`)
+		x, err := xmp.ParseXmp(strings.NewReader(p))
+		if got := x.Basic.CreateDate.Format("2006-01-02T15:04:05Z07:00"); err != nil || got != c.want {
+			t.Errorf("CreateDate %q: %s, err=%v, want %s", c.txt, got, err, c.want)
+		}
+	}
+}
